@@ -210,3 +210,11 @@ package phantoms
 //@ func selectPhantomImplHkdf(seed []byte, subnets []*phantomNet) (*PhantomIP, error)
 //@   assigns nothing
 //@   trusted
+
+// C01 (published algorithm, HKDF group chooser): the weighted groups are ordered by the STRICT comparison of their
+// weights; with a non-strict comparison sort.Slice leaves groups of equal weight in a different order, and the order
+// decides which group a given draw lands in - deployed clients use the strict one.
+//@ define groupWeight(g *pb.PhantomSubnets) uint32 = ite(g == nil || g.Weight == nil, 0, *g.Weight)
+//@ func getSubnetsHkdf$1(i int, j int) bool
+//@   ensures @C01: result == (groupWeight(choices[i]) < groupWeight(choices[j]))
+//@   assigns nothing
